@@ -365,3 +365,72 @@ theorem inv_reachable (c : Cfg) (hn : 0 < c.n) (s : State) (h : (lts c).Reachabl
   Lts.invariant (lts c) (Inv c) (inv_init c hn) (fun s l s' hi hs => inv_step c s s' l hi hs) s h
 
 end Goderive.K.Do
+
+namespace Goderive.K.Do
+
+/-- well-formed configuration: at least one function; every rendezvous is between two different
+functions of the call -/
+def WF (c : Cfg) : Prop :=
+  0 < c.n ∧ ∀ (p a b : Nat), c.pairs[p]? = some (a, b) → a < c.n ∧ b < c.n ∧ a ≠ b
+
+theorem progress (c : Cfg) (hwf : WF c) (s : State) (hi : Inv c s) (hnf : s.pc ≠ .done) :
+    (lts c).Enabled s := by
+  cases hpc : s.pc with
+  | spawn k =>
+    obtain ⟨hkn, _, _⟩ := hi.spawn_inv k hpc
+    exact Lts.enabled_of_isSome _ _ .spawn (by simp [lts, step, hpc, hkn])
+  | ret => exact Lts.enabled_of_isSome _ _ .ret (by simp [lts, step, hpc])
+  | done => exact absurd hpc hnf
+  | recv j =>
+    have hnosp : ∀ k, s.pc ≠ .spawn k := by intro k h; rw [hpc] at h; cases h
+    obtain ⟨hjn, hcnt⟩ := hi.recv_inv j hpc
+    by_cases hs : ∃ i, i < c.n ∧ s.st i = .send
+    · obtain ⟨i, hin, hsend⟩ := hs
+      exact Lts.enabled_of_isSome _ _ (.xfer i) (by simp [lts, step, hpc, hin, hsend])
+    · -- nobody is parked at the send: every started worker is running or finished
+      have hst : ∀ i, i < c.n → s.st i = .run ∨ s.st i = .fin := by
+        intro i hin
+        have h1 := hi.started hnosp i hin
+        have h2 : s.st i ≠ .send := fun h => hs ⟨i, hin, h⟩
+        cases h : s.st i <;> simp_all
+      by_cases hex : ∃ q, q < c.pairs.length ∧ s.rvDone q = false
+      · -- the first rendezvous that has not happened is enabled
+        obtain ⟨p, hp, hpd, hmin⟩ := exists_least s.rvDone c.pairs.length hex
+        have hget : c.pairs[p]? = some c.pairs[p] := List.getElem?_eq_getElem hp
+        generalize c.pairs[p] = pr at hget
+        obtain ⟨a, b⟩ := pr
+        obtain ⟨han, hbn, hne⟩ := hwf.2 p a b hget
+        have hrunning : ∀ x, x < c.n → involves (a, b) x = true → s.st x = .run := by
+          intro x hxn hinv
+          rcases hst x hxn with h | h
+          · exact h
+          · have hall := (hi.written x (Or.inr h)).2
+            unfold allDone at hall
+            rw [earlierDone_iff] at hall
+            have := hall p hp (a, b) hget hinv
+            rw [hpd] at this; cases this
+        have hearlier : ∀ x, earlierDone c s.rvDone p x = true := by
+          intro x
+          rw [earlierDone_iff]
+          intro q hq _ _ _
+          exact hmin q hq
+        have ha := hrunning a han (by simp [involves])
+        have hb := hrunning b hbn (by simp [involves])
+        exact Lts.enabled_of_isSome _ _ (.rv p) (by simp [lts, step, hget, hpd, han, hbn, hne, ha, hb, hearlier])
+      · -- every rendezvous has happened: a running worker can return
+        have hlt : count (fun i => isFin (s.st i)) c.n < c.n := by omega
+        obtain ⟨i, hin, hnf'⟩ := count_lt_exists _ c.n hlt
+        have hrun : s.st i = .run := by
+          rcases hst i hin with h | h
+          · exact h
+          · simp [isFin, h] at hnf'
+        have hall : allDone c s.rvDone i = true := by
+          unfold allDone
+          rw [earlierDone_iff]
+          intro q hq _ _ _
+          cases h : s.rvDone q
+          · exact absurd ⟨q, hq, h⟩ hex
+          · rfl
+        exact Lts.enabled_of_isSome _ _ (.wr i) (by simp [lts, step, hin, hrun, hall])
+
+end Goderive.K.Do
